@@ -85,6 +85,9 @@ pub struct Scn {
     pub duration_ms: u64,
     pub conns: Vec<WConn>,
     pub faults: Vec<PF>,
+    /// privileges.drop_privileges: the socket workers rendezvous at a barrier after binding (the chroot itself is not simulated)
+    #[serde(default)]
+    pub drop_priv: bool,
 }
 
 /// 20-byte ids as the reference client sends them: one character per byte (U+0000-U+00FF)
@@ -131,6 +134,10 @@ enum Ev {
     GotOther { what: String },
     Closed { by_client: bool, seq: u64 },
     HandshakeFailed { why: String },
+    /// simulated time of the event that follows (pushed before every received message, close and open)
+    At { ns: u64 },
+    /// found closed by the tracker only after the observers had looked (closed at some point in the last 3.7 s)
+    ClosedLate { ns: u64 },
 }
 
 #[derive(Default)]
@@ -143,6 +150,7 @@ struct Collected {
 
 fn build_config(scn: &Scn, dir: &std::path::Path) -> Config {
     let mut c = Config::default();
+    c.privileges.drop_privileges = scn.drop_priv;
     c.socket_workers = scn.socket_workers.max(1) as usize;
     c.swarm_workers = scn.swarm_workers.max(1) as usize;
     match scn.layout % 3 {
@@ -206,7 +214,11 @@ fn pump2(ws: &mut Ws, log: &mut Vec<Ev>, deadline_ns: u64, stop: u8) -> bool {
             s.read_timeout_ns = left;
             s.timeout_is_would_block = true;
         }
-        match ws.read() {
+        let got = ws.read();
+        if !matches!(&got, Err(tungstenite::Error::Io(e)) if e.kind() == std::io::ErrorKind::WouldBlock) {
+            log.push(Ev::At { ns: engine::now() });
+        }
+        match got {
             Ok(Message::Text(t)) => {
                 let seq = engine::seq();
                 let v: Value = match serde_json::from_str(t.as_str()) {
@@ -284,6 +296,7 @@ fn client_main(idx: usize, scn: Arc<Scn>, col: Arc<Mutex<Collected>>) {
             return;
         }
     };
+    log.push(Ev::At { ns: engine::now() });
     let me = id_string(&conn_peer_id(idx, false));
     let mut n_offers: u32 = 0;
     let mut alive = true;
@@ -355,11 +368,13 @@ fn client_main(idx: usize, scn: Arc<Scn>, col: Arc<Mutex<Collected>>) {
                 }
                 let stopped = evs == Some("stopped");
                 let refused = book(&mut cur, *t, idx, stopped);
+                log.push(Ev::At { ns: engine::now() });
                 log.push(Ev::SentAnn { t: *t, stopped, seeder: *left == Some(0), offers: sdps, seq: engine::seq(), pidc: idx, refused, nowait: *nowait });
                 if let Some(a) = answer_ev {
                     log.push(a);
                 }
                 if ws.send(Message::text(m.to_string())).is_err() {
+                    log.push(Ev::At { ns: engine::now() });
                     log.push(Ev::Closed { by_client: false, seq: engine::seq() });
                     alive = false;
                 } else if !*nowait {
@@ -376,6 +391,7 @@ fn client_main(idx: usize, scn: Arc<Scn>, col: Arc<Mutex<Collected>>) {
                     m["event"] = json!(e);
                 }
                 let refused = book(&mut cur, *t, v, evs == Some("stopped"));
+                log.push(Ev::At { ns: engine::now() });
                 log.push(Ev::SentAnn { t: *t, stopped: evs == Some("stopped"), seeder: false, offers: vec![], seq: engine::seq(), pidc: v, refused, nowait: false });
                 if ws.send(Message::text(m.to_string())).is_err() {
                     alive = false;
@@ -386,6 +402,7 @@ fn client_main(idx: usize, scn: Arc<Scn>, col: Arc<Mutex<Collected>>) {
             WOp::SecondPid { t } => {
                 let m = json!({"action": "announce", "info_hash": id_string(&info_hash(*t)), "peer_id": id_string(&conn_peer_id(idx, true)), "left": 5, "event": "started", "numwant": 0});
                 let refused = book(&mut cur, *t, 100 + idx, false);
+                log.push(Ev::At { ns: engine::now() });
                 log.push(Ev::SentAnn { t: *t, stopped: false, seeder: false, offers: vec![], seq: engine::seq(), pidc: 100 + idx, refused, nowait: false });
                 if ws.send(Message::text(m.to_string())).is_err() {
                     alive = false;
@@ -399,6 +416,7 @@ fn client_main(idx: usize, scn: Arc<Scn>, col: Arc<Mutex<Collected>>) {
                 let m = json!({"action": "announce", "info_hash": id_string(&info_hash(*t)), "peer_id": me, "left": 5, "numwant": 0,
                     "answer": {"type": "answer", "sdp": sdp}, "to_peer_id": id_string(&conn_peer_id(to_c, false)), "offer_id": id_string(&offer_id(to_c, 600 + *oid as u32))});
                 let refused = book(&mut cur, *t, idx, false);
+                log.push(Ev::At { ns: engine::now() });
                 log.push(Ev::SentAnn { t: *t, stopped: false, seeder: false, offers: vec![], seq: engine::seq(), pidc: idx, refused, nowait: false });
                 log.push(Ev::SentAnswer { t: *t, to_pid: id_string(&conn_peer_id(to_c, false)), oid: id_string(&offer_id(to_c, 600 + *oid as u32)), sdp, seq: engine::seq(), genuine: false });
                 if ws.send(Message::text(m.to_string())).is_err() {
@@ -414,6 +432,7 @@ fn client_main(idx: usize, scn: Arc<Scn>, col: Arc<Mutex<Collected>>) {
                     Some(v) if v.len() == 1 => json!({"action": "scrape", "info_hash": id_string(&info_hash(v[0]))}),
                     Some(v) => json!({"action": "scrape", "info_hash": v.iter().map(|t| id_string(&info_hash(*t))).collect::<Vec<_>>()}),
                 };
+                log.push(Ev::At { ns: engine::now() });
                 log.push(Ev::SentScr { ts: ts.clone(), seq: engine::seq() });
                 // scrapes may travel as binary messages too
                 let msg = if idx % 2 == 0 { Message::text(m.to_string()) } else { Message::binary(m.to_string().into_bytes()) };
@@ -457,16 +476,22 @@ fn client_main(idx: usize, scn: Arc<Scn>, col: Arc<Mutex<Collected>>) {
     if alive {
         // keep the connection open (and its peers stored) until the end of the run
         let end = scn.duration_ms * 1_000_000;
-        let _ = pump(&mut ws, &mut log, end.saturating_sub(700_000_000), false);
-        // mark: still open when the observers looked
+        alive = pump(&mut ws, &mut log, end.saturating_sub(700_000_000), false);
     }
-    col.lock().unwrap().logs[idx] = log;
     if alive {
-        // hold the socket until the observers are done
+        // hold the socket until the observers are done, then look once more: the tracker may have closed
+        // the connection (idle cleaning) after this client stopped reading
         let end = scn.duration_ms * 1_000_000 + 3_000_000_000;
         let left = end.saturating_sub(engine::now());
         thread::sleep(Duration::from_nanos(left));
+        if !pump(&mut ws, &mut log, engine::now() + 1_000_000, false) {
+            if let Some(Ev::Closed { by_client: false, .. }) = log.last() {
+                log.pop();
+                log.push(Ev::ClosedLate { ns: engine::now() });
+            }
+        }
     }
+    col.lock().unwrap().logs[idx] = log;
 }
 
 fn sim_root(scn: Arc<Scn>, col: Arc<Mutex<Collected>>) {
@@ -638,7 +663,7 @@ impl Harness for WsSys {
             max_offer_age: *r.pick(&[2u32, 120]),
             cleaning_interval: *r.pick(&[3u64, 30]),
             conn_cleaning_interval: *r.pick(&[2u64, 30]),
-            max_connection_idle: 180,
+            max_connection_idle: if !c19 && r.chance(200) { *r.pick(&[3u32, 6]) } else { 180 },
             access_mode,
             access_list: (0..r.below(3)).map(|_| r.below(4) as u8).collect(),
             sched_strategy: r.below(4) as u8,
@@ -648,6 +673,7 @@ impl Harness for WsSys {
             duration_ms: if c19 { 35_000 } else { r.range(8_000, 20_000) },
             conns,
             faults,
+            drop_priv: r.chance(300),
         }
     }
 
@@ -712,6 +738,10 @@ impl Harness for WsSys {
             }
             unplanned = true;
             violations.push(Violation::new("C12", "no-panic-on-network-input", if msg.contains("overflow") { "arithmetic-overflow" } else { "tracker-thread-panic" }, format!("tracker thread {} panicked: {}", name, msg)));
+            // whatever property this run samples, a tracker that dies of its own accord no longer serves anybody
+            if prop != "C12" && scn.faults.is_empty() {
+                violations.push(Violation::new(prop, "tracker-stays-up", "tracker-thread-panic", format!("tracker thread {} panicked without an injected fault: {}", name, msg)));
+            }
         }
         // ---- C19
         {
@@ -805,7 +835,23 @@ impl Harness for WsSys {
             // which torrents this connection ever announced (non-stopped) before each point
             let mut announced: BTreeSet<u8> = BTreeSet::new();
             let mut pending: Option<&Ev> = None; // last request awaiting its reply
+            // time of the current event; of the last request sent; of the last request that got its announce / scrape
+            // reply (or the open): the tracker refreshed the idle deadline no earlier than that
+            let (mut at_ns, mut sent_ns, mut active_ns) = (0u64, 0u64, 0u64);
+            let mut first_at = true;
             for (i, e) in log.iter().enumerate() {
+                match e {
+                    Ev::At { ns } => {
+                        at_ns = *ns;
+                        if first_at {
+                            active_ns = *ns;
+                            first_at = false;
+                        }
+                    }
+                    Ev::SentAnn { .. } | Ev::SentScr { .. } => sent_ns = at_ns,
+                    Ev::GotAnnounceReply { .. } | Ev::GotScrapeReply { .. } => active_ns = sent_ns.max(active_ns),
+                    _ => {}
+                }
                 match e {
                     Ev::HandshakeFailed { why } => {
                         // no listener for the family is fine; anything else is not
@@ -902,11 +948,23 @@ impl Harness for WsSys {
                             }
                         }
                     }
+                    Ev::ClosedLate { ns } => {
+                        if ns.saturating_sub(active_ns) + 1_500_000_000 >= scn.max_connection_idle as u64 * 1_000_000_000 {
+                            stats.probe("idle-connection-closed-by-tracker");
+                        } else {
+                            violations.push(Violation::new("C17", "connection-stays-open", "tracker-closed-connection", format!("connection #{} was closed by the tracker without cause while it was waiting", c)));
+                        }
+                    }
                     Ev::Closed { by_client: false, .. } => {
                         // the tracker ended the connection: legitimate after a second peer id, a malformed
                         // message is NOT a reason (it gets an error reply), idle cleaning not configured here
                         let second = matches!(pending, Some(Ev::SentAnn { refused: true, .. }));
-                        if !second && !matches!(pending, Some(Ev::SentBad { .. })) && i + 1 == log.len() {
+                        // idle cleaning: no announce or scrape reply went out for max_connection_idle (whole seconds, so 1.5 s of slack)
+                        let idle = at_ns.saturating_sub(active_ns) + 1_500_000_000 >= scn.max_connection_idle as u64 * 1_000_000_000;
+                        if idle && !second {
+                            stats.probe("idle-connection-closed-by-tracker");
+                        }
+                        if !second && !idle && !matches!(pending, Some(Ev::SentBad { .. })) && i + 1 == log.len() {
                             let by_us = log.iter().any(|e| matches!(e, Ev::Closed { by_client: true, .. }));
                             if !by_us {
                                 violations.push(Violation::new("C17", "connection-stays-open", "tracker-closed-connection", format!("connection #{} was closed by the tracker without cause (pending {:?})", c, pending)));
@@ -975,7 +1033,24 @@ impl Harness for WsSys {
                 let ended = log.iter().any(|e| matches!(e, Ev::Closed { .. } | Ev::HandshakeFailed { .. }));
                 let v4 = canon_ip(src_ip(scn.conns[c].v6, if scn.conns[c].v6 { scn.conns[c].ac % 2 } else { 0 }, scn.conns[c].h)).is_ipv4();
                 let mut last: BTreeMap<u8, (bool, bool)> = BTreeMap::new(); // t -> (stored, seeder)
+                let mut unanswered: Option<u8> = None; // un-stopped announce still awaiting its reply
+                // closed around the time the observers looked: its entries may or may not have been there
+                let closed_late = log.iter().any(|e| matches!(e, Ev::ClosedLate { .. }));
                 for e in log {
+                    if let (true, Ev::SentAnn { t, .. }) = (closed_late, e) {
+                        uncertain.insert((!v4, *t));
+                    }
+                    match e {
+                        Ev::SentAnn { t, stopped, refused: false, .. } if allowed(*t) => unanswered = if *stopped { None } else { Some(*t) },
+                        Ev::SentAnn { .. } | Ev::SentScr { .. } | Ev::SentBad { .. } | Ev::GotAnnounceReply { .. } | Ev::GotScrapeReply { .. } | Ev::GotError { .. } => unanswered = None,
+                        Ev::Closed { .. } => {
+                            // the close overtook an announce that was still in flight (whoever closed)
+                            if let Some(t) = unanswered.take() {
+                                raced.insert((!v4, t));
+                            }
+                        }
+                        _ => {}
+                    }
                     if let Ev::SentAnn { t, stopped, seeder, pidc, refused: false, .. } = e {
                         if !allowed(*t) {
                             continue;
@@ -1005,6 +1080,9 @@ impl Harness for WsSys {
                         }
                     }
                 }
+            }
+            if std::env::var_os("VERIF_DEBUG").is_some() {
+                eprintln!("logs {:?}\nexpect {:?} uncertain {:?} raced {:?} final {:?}", col.logs, expect, uncertain, raced, col.final_scrape);
             }
             for (obs_v6, files) in &col.final_scrape {
                 // the observer's family: IPv6 observer sees the IPv6 swarm; an IPv4 (or mapped) one the IPv4 swarm
